@@ -90,7 +90,9 @@ class IntervalGrader(SingleListGrader):
         """
         # Step 1: Provide the default subgrader
         # Work on a copy: the author's dictionary must not acquire a 'subgrader' entry
-        use_config = dict(config if config else kwargs)
+        # (a supplied dictionary, even an empty one, wins over keyword arguments, as everywhere;
+        # registered defaults may supply the subgrader too)
+        use_config = self.apply_registered_defaults(dict(config if config is not None else kwargs))
         if use_config.get('subgrader') is None:
             use_config['subgrader'] = NumericalGrader(tolerance=1e-13, allow_inf=True)
 
